@@ -128,6 +128,27 @@ func c14r2(r *R) {
 	r.assume("S5: tls.LoadX509KeyPair returns an error unless the key matches the leaf certificate")
 }
 
+// evtNorm restates the fsnotify mask tests written in place (`event.Op&fsnotify.Write == fsnotify.Write`) as the
+// package's like-named predicates, so that the rule reads both spellings alike.
+func evtNorm(g string) string {
+	for _, p := range [][2]string{{"isWrite", "2"}, {"isCreate", "1"}, {"isRemove", "4"}} {
+		g = strings.ReplaceAll(g, "(("+p[1]+" & p1.Op) == "+p[1]+")", "certwatcher."+p[0]+"(p1)")
+		g = strings.ReplaceAll(g, "(0 != ("+p[1]+" & p1.Op))", "certwatcher."+p[0]+"(p1)")
+		// canonGuard may have stated the negation positively
+		g = strings.ReplaceAll(g, "+(("+p[1]+" & p1.Op) != "+p[1]+")", "-certwatcher."+p[0]+"(p1)")
+		g = strings.ReplaceAll(g, "+(0 == ("+p[1]+" & p1.Op))", "-certwatcher."+p[0]+"(p1)")
+	}
+	return g
+}
+
+func evtGuards(c *Ctx, b *ssa.BasicBlock) []string {
+	var out []string
+	for _, g := range c.guardStrs(b) {
+		out = append(out, evtNorm(g))
+	}
+	return out
+}
+
 func c14r3(r *R) {
 	c := r.C
 	he := c.Method("pkg/certwatcher", "CertWatcher", "handleEvent")
@@ -142,12 +163,12 @@ func c14r3(r *R) {
 			if !isReturn(i) {
 				return false
 			}
-			gs := c.guardStrs(i.Block())
+			gs := evtGuards(c, i.Block())
 			return !(hasGuard(gs, "-certwatcher.isWrite(p1)") && hasGuard(gs, "-certwatcher.isRemove(p1)") && hasGuard(gs, "-certwatcher.isCreate(p1)"))
 		})
 		o.Check(p == nil, "a write/create/remove event can be dropped without reloading the pair: %v", p)
 		// the reload is not conditional on anything after the filter except the filter itself
-		for _, g := range c.guardStrs(rd.Block()) {
+		for _, g := range evtGuards(c, rd.Block()) {
 			ok := strings.Contains(g, "certwatcher.isWrite(p1)") || strings.Contains(g, "certwatcher.isRemove(p1)") || strings.Contains(g, "certwatcher.isCreate(p1)")
 			o.Check(ok, "the reload is additionally conditional on %s", g)
 		}
@@ -158,7 +179,7 @@ func c14r3(r *R) {
 			o.AtI(ad)
 			a := callOf(ad).Args
 			o.Check(c.Expr(a[0]) == "p0.watcher" && c.Expr(a[1]) == "p1.Name", "re-watch is %s", c.Expr(ad.(ssa.Value)))
-			gs := c.guardStrs(ad.Block())
+			gs := evtGuards(c, ad.Block())
 			o.Check(hasGuard(gs, "+certwatcher.isRemove(p1)"), "the re-watch is not on the isRemove edge; guards %v", gs)
 			for _, g := range gs {
 				o.Check(!strings.Contains(g, "ReadCertificate"), "the re-watch depends on the outcome of the reload (%s): after a reload that fails midway through a rename-style update the file is never watched again", g)
@@ -167,7 +188,7 @@ func c14r3(r *R) {
 			// every remove event re-adds: from entry, paths on which isRemove is true reach Add before return
 			var remIf *ssa.If
 			eachInstr(he, func(i ssa.Instruction) {
-				if iff, ok := i.(*ssa.If); ok && c.Expr(iff.Cond) == "certwatcher.isRemove(p1)" && iff.Block().Succs[0] == ad.Block() {
+				if iff, ok := i.(*ssa.If); ok && evtNorm(c.Expr(iff.Cond)) == "certwatcher.isRemove(p1)" && iff.Block().Succs[0] == ad.Block() {
 					remIf = iff
 				}
 			})
@@ -188,7 +209,15 @@ func c14r3(r *R) {
 	for _, p := range [][2]string{{"isWrite", "2"}, {"isCreate", "1"}, {"isRemove", "4"}} {
 		fn := c.Func("pkg/certwatcher", p[0])
 		oo := r.Ob("C14.R3", "predicate:"+p[0])
-		if !oo.Check(fn != nil, "%s not found", p[0]) {
+		if fn == nil {
+			// no helper: the mask test must be written in place in handleEvent
+			found := false
+			eachInstr(he, func(i ssa.Instruction) {
+				if bo, ok := i.(*ssa.BinOp); ok && evtNorm(c.Expr(bo)) == "certwatcher."+p[0]+"(p1)" {
+					found = true
+				}
+			})
+			oo.Check(found, "neither %s nor an in-place test of event.Op against fsnotify.%s (%s) found", p[0], strings.TrimPrefix(p[0], "is"), p[1])
 			continue
 		}
 		oo.At(fn.Pos())
